@@ -1562,6 +1562,21 @@ func c05Scenarios() []c05Scenario {
 			}
 		}
 	}
+	// ManageAsync of a name whose stored certificate is due, then passes while that renewal job is queued /
+	// holds the lock / has ended: the pass's job and manage's job carry the same name and de-duplicate
+	for _, expired := range []bool{false, true} {
+		for _, fail := range []int{0, 1} {
+			for _, idue := range []bool{false, true} {
+				h := c05Build([]c05NameInit{{stored: 3}, {cached: 1, stored: 1}}, idue)
+				if expired {
+					h.Certs[h.Store[0]].Expired = true
+				}
+				out = append(out, c05Scenario{"manage-async-then-passes", h,
+					c05Cat(one(c05Ev("issuer", 0, fail)), one(c05Ev("manage", 0, 1)), pass(0), one(c05Ev("job", 0)), pass(1),
+						one(c05Ev("scan", 2)), one(c05Ev("job", 0)), one(c05Ev("act", 2)), one(c05Ev("issuer", 0, 0)), drain(0), pass(3), drain(0), pass(4))})
+			}
+		}
+	}
 	// ManageAsync twice for a name with nothing in storage: two unnamed obtain jobs, one Issue
 	for _, fail := range []int{0, 1} {
 		for _, idue := range []bool{false, true} {
